@@ -492,6 +492,145 @@ def main():
                                                during, before, after))
         if not state["n"]:
             failures.append("no __hash__ hook fired inside a walker")
+    elif which == "lookup_during_mutator":
+        # Lookups that happen WHILE a mutator runs -- from the documented storage hooks the mutator itself
+        # calls (_mappingType.__setitem__), from a key's __hash__, and from a lookup thread -- on the
+        # registry, on an AdapterRegistry based on it and on a VerifyingAdapterRegistry based on it.  After
+        # the mutator returned, every query must answer like a freshly built registry with the same
+        # registrations (nothing computed in the middle may survive); for the single-write mutators the
+        # answers given in the middle must be the ones before or after.
+        import threading
+        import time
+        from zope.interface.adapter import AdapterRegistry, VerifyingAdapterRegistry
+        from zope.interface.interface import InterfaceClass
+        hook = [None]
+
+        def fire():
+            h = hook[0]
+            if h is not None:
+                hook[0] = None
+                try:
+                    h()
+                finally:
+                    hook[0] = h
+
+        class HookMap(dict):
+            def __setitem__(self, k, v):
+                dict.__setitem__(self, k, v)
+                fire()
+
+        class Hooked(InterfaceClass):
+            def __hash__(self):
+                fire()
+                return InterfaceClass.__hash__(self)
+
+        class Reg(AdapterRegistry):
+            _mappingType = HookMap
+
+        II = InterfaceClass("II", (Interface,), {"__module__": __name__})
+        JJ = Hooked("JJ", (II,), {"__module__": __name__})
+        PP = InterfaceClass("PP", (Interface,), {"__module__": __name__})
+
+        def populate(r, regs, subs):
+            for a in regs:
+                r.register(*a)
+            for a in subs:
+                r.subscribe(*a)
+
+        base_regs = [([II], PP, "", "a"), ([JJ], PP, "n", "b"), ([II, II], PP, "", "c")] + \
+                    [([II], PP, "x%d" % j, "v%d" % j) for j in range(12)]
+        base_subs = [([II], PP, "s1"), ([JJ], PP, "s2")]
+
+        def queries(r):
+            return (r.lookup([JJ], PP, ""), r.lookup([JJ], PP, "n"), r.lookup([JJ, JJ], PP, ""), r.lookup([JJ], PP, "x7"),
+                    tuple(sorted(r.lookupAll([JJ], PP))), tuple(sorted(r.subscriptions([JJ], PP))))
+
+        def triple(regcls):
+            r = regcls()
+            return r, AdapterRegistry((r,)), VerifyingAdapterRegistry((r,))
+
+        def all_queries(t):
+            return tuple(queries(x) for x in t)
+
+        def fresh_like(reg):
+            t = triple(AdapterRegistry)
+            populate(t[0], [tuple(a) for a in reg.allRegistrations()], [tuple(a) for a in reg.allSubscriptions()])
+            return all_queries(t)
+
+        other = AdapterRegistry()
+        mutators = [
+            ("register", lambda r: r.register([JJ], PP, "", "d"), True),
+            ("unregister", lambda r: r.unregister([JJ], PP, ""), True),
+            ("subscribe", lambda r: r.subscribe([JJ], PP, "s3"), True),
+            ("unsubscribe", lambda r: r.unsubscribe([JJ], PP, "s3"), True),
+            ("rebuild", lambda r: r.rebuild(), False),
+            ("set __bases__", lambda r: setattr(r, "__bases__", (other,)), True),
+            ("reset __bases__", lambda r: setattr(r, "__bases__", ()), True),
+        ]
+        # ---- deterministic: re-entrant lookups from the hooks
+        t = triple(Reg)
+        populate(t[0], base_regs, base_subs)
+        for label, mut, single_write in mutators:
+            before = all_queries(t)
+            during = []
+            hook[0] = lambda: (state.__setitem__("n", state["n"] + 1), during.append(all_queries(t)))
+            try:
+                mut(t[0])
+            except Exception as e:   # noqa
+                failures.append("%s raised %s: %s" % (label, type(e).__name__, str(e)[:100]))
+            hook[0] = None
+            after = all_queries(t)
+            want = fresh_like(t[0])
+            if after != want and len(failures) < 6:
+                k = [i for i in range(3) if after[i] != want[i]][0]
+                failures.append("after %s() with lookups from its storage hooks: %s answers %r, a fresh registry %r"
+                                % (label, ("the registry", "an AdapterRegistry based on it", "a VerifyingAdapterRegistry based on it")[k],
+                                   after[k], want[k]))
+            if single_write:
+                bad = [d for d in during if d != before and d != after]
+                if bad and len(failures) < 6:
+                    failures.append("a lookup in the middle of %s() answered %r; before %r, after %r" % (label, bad[0], before, after))
+        if not state["n"]:
+            failures.append("no lookup ran inside a mutator")
+        # ---- a lookup thread against rebuild() and the other mutators
+        sys.setswitchinterval(1e-6)
+        t = triple(AdapterRegistry)
+        populate(t[0], base_regs + [([II], PP, "y%d" % j, "w%d" % j) for j in range(100)], base_subs)
+        stop = [False]
+        errs = []
+
+        def reader():
+            try:
+                while not stop[0]:
+                    all_queries(t)
+                    for j in (3, 50, 99):
+                        for x in t:
+                            x.lookup([JJ], PP, "y%d" % j)
+            except Exception as e:   # noqa
+                errs.append("%s: %s" % (type(e).__name__, str(e)[:100]))
+
+        th = threading.Thread(target=reader)
+        th.start()
+        deadline = time.time() + (2.0 if n < 1000 else 20.0)
+        rounds = 0
+        try:
+            while time.time() < deadline and len(failures) < 6:
+                rounds += 1
+                for label, mut, _sw in mutators:
+                    mut(t[0])
+                    stop_now = all_queries(t) + tuple(tuple(x.lookup([JJ], PP, "y%d" % j) for j in (3, 50, 99)) for x in t)
+                    tf = triple(AdapterRegistry)
+                    populate(tf[0], [tuple(a) for a in t[0].allRegistrations()], [tuple(a) for a in t[0].allSubscriptions()])
+                    want = all_queries(tf) + tuple(tuple(x.lookup([JJ], PP, "y%d" % j) for j in (3, 50, 99)) for x in tf)
+                    if stop_now != want:
+                        failures.append("round %d: after %s() racing a lookup thread the registries answer %r, fresh ones %r"
+                                        % (rounds, label, stop_now, want))
+                        break
+        finally:
+            stop[0] = True
+            th.join()
+        if errs:
+            failures.append("lookup thread: " + errs[0])
     else:
         failures.append("unknown scenario " + which)
     _boot.write_result({"summary": "survived, %d callbacks fired" % state["n"], "failures": failures})
